@@ -132,7 +132,9 @@ JoinPreds(cols) == {p \in {PLit(TRUE), Cmp("le", A, CC), Cmp("ne", B, A), Cmp("e
 
 \* a relation that the join branch cannot merge into its FROM clause (it stays a
 \* sub-query), so that joining it with ITSELF is legitimate without aliasing
-Unstrippable(r) == r.k = "sel" /\ (r.dedup \/ HasSort(r) \/ HasSlice(r) \/ IsCompound(r))
+\* (offered only early in a program: a self-join late in a deep program squares the row count and makes the
+\* compile model's evaluation very expensive without adding a new shape)
+Unstrippable(r) == r.k = "sel" /\ (r.dedup \/ HasSort(r) \/ HasSlice(r) \/ IsCompound(r)) /\ Len(hist) <= 2
 BinaryCalls(r) ==
     IF MenuKind = "focus"
     THEN {[f |-> "chain", rhs |-> "T3"], [f |-> "join", rhs |-> "T2", p |-> PLit(TRUE)]}
